@@ -48,7 +48,7 @@ def tier_config(tier):
 
 def gen_doc(rng, want_fix):
     if rng.random() < 0.4 and not want_fix:
-        text, layout, feats = _c01.gen_text(rng, 8192, True)
+        text, layout, feats = _c01.gen_text(rng, 8192, False, non_ascii=True)
         return {'text': text, 'faults': [], 'feats': ['syntactic'] + feats}
     icvn = rng.choice(['00401', '00501'])
     segs = envgen.gen_skeleton(rng, icvn, max_isa=2, max_gs=2, max_st=3, max_body=8)
@@ -58,8 +58,8 @@ def gen_doc(rng, want_fix):
             k = rng.choice(COUNT_FAULTS)
             if _c04.apply_fault(segs, k, rng):
                 fired.append(k)
-    seg_term = rng.choice(['~', '~', '\n', '!'])
-    eol = rng.choice(['', '\n', '\r\n', '\r']) if seg_term != '\n' else ''
+    seg_term = rng.choice(['~', '~', '\n', '!', '\r'])
+    eol = rng.choice(['', '\n', '\r\n', '\r']) if seg_term not in '\r\n' else rng.choice(['', '', '\n'] if seg_term == '\r' else [''])
     text = envgen.serialise(segs, seg_term, rng.choice(['*', '|']), rng.choice([':', '>']), eol)
     return {'text': text, 'faults': fired, 'feats': ['skeleton', 'eol:' + repr(eol)]}
 
@@ -71,7 +71,7 @@ def generate(rng, tier, run, seed=0):
     if dest == 'outfile':
         nfiles = 1
     docs = [gen_doc(rng, fix) for _ in range(nfiles)]
-    return {'docs': docs, 'eol': rng.random() < 0.5, 'fix': fix, 'dest': dest}
+    return {'docs': docs, 'eol': rng.random() < 0.5, 'fix': fix, 'dest': dest, 'odd_names': rng.random() < 0.1}
 
 
 # ------------------------------------------------------------------ execution
@@ -100,19 +100,23 @@ def flat(tk):
     return [[s.id] + [tk.subele_term.join(c) if s.id != 'ISA' else c[0] for c in s.trimmed()] for s in tk.segs]
 
 
-def expected_text(tk, eol):
+def expected_text(tk, eol, idonly_sep=False):
     e = '\n' if eol else ''
-    return ''.join(s.format(tk.seg_term, tk.ele_term, tk.subele_term) + e for s in tk.segs) + ('' if eol else '\n')
+    return ''.join(s.format(tk.seg_term, tk.ele_term, tk.subele_term, idonly_sep) + e for s in tk.segs) + ('' if eol else '\n')
 
 
 def check_doc(doc, produced, case, out, tag):
-    src = _c01.fold_newlines(doc['text'])
+    src = doc['text']        # the input file is read as it is (no newline folding)
     try:
         ref = T.tokenise(src)
     except T.NotX12:
         return
     if not case['fix'] or not any(s.id in ('SE', 'GE', 'IEA', 'HL') for s in ref.segs):
         want = expected_text(ref, case['eol'])
+        if produced != want and produced == expected_text(ref, case['eol'], idonly_sep=True):
+            out.violate('content', 'content-mismatch|id-only-separator', '%s: a segment that is only its identifier is written with an element separator '
+                        'the input does not have (XX~ -> XX*~)' % tag)
+            return
         if produced != want:
             j = next((k for k in range(min(len(produced), len(want))) if produced[k] != want[k]), min(len(produced), len(want)))
             cls = 'empty-output' if produced == '' else 'content'
@@ -169,8 +173,9 @@ def execute(case):
     try:
         paths = []
         for i, doc in enumerate(case['docs']):
-            p = os.path.join(d, 'in%d.x12' % i)
-            with open(p, 'w', encoding='ascii', newline='') as f:
+            # (a file name may hold glob characters; it still names that file)
+            p = os.path.join(d, ('in%d.x12' if not case.get('odd_names') else 'claim[%d].x12') % i)
+            with open(p, 'w', encoding='latin-1', newline='') as f:
                 f.write(doc['text'])
             paths.append(p)
             for k in doc['faults']:
@@ -214,11 +219,11 @@ def execute(case):
         elif case['dest'] == 'outfile':
             if so != '':
                 out.violate('dest', 'stdout-with-o', 'text on stdout although -o was given')
-            produced = [open(outp, encoding='ascii', newline='').read() if os.path.exists(outp) else '']
+            produced = [open(outp, encoding='latin-1', newline='').read() if os.path.exists(outp) else '']
         else:
             if so != '':
                 out.violate('dest', 'stdout-with-i', 'text on stdout although -i was given')
-            produced = [open(p, encoding='ascii', newline='').read() for p in paths]
+            produced = [open(p, encoding='latin-1', newline='').read() for p in paths]
         for i, doc in enumerate(case['docs']):
             n0 = len(out.violations)
             check_doc(doc, produced[i], case, out, 'file %d (%s)' % (i, ' '.join(argv[:-len(paths)]) or 'no options'))
@@ -226,7 +231,7 @@ def execute(case):
                 continue
             # idempotence: normalising the output again (same -e, no -f needed) changes nothing
             p2 = os.path.join(d, 'again%d.x12' % i)
-            with open(p2, 'w', encoding='ascii', newline='') as f:
+            with open(p2, 'w', encoding='latin-1', newline='') as f:
                 f.write(produced[i])
             if produced[i].startswith('ISA'):
                 try:
@@ -239,7 +244,7 @@ def execute(case):
             # the three destinations receive identical text (single input): compare with a stdout run
             if case['dest'] != 'stdout' and len(paths) == 1:
                 p3 = os.path.join(d, 'cmp.x12')
-                with open(p3, 'w', encoding='ascii', newline='') as f:
+                with open(p3, 'w', encoding='latin-1', newline='') as f:
                     f.write(doc['text'])
                 ref_out = run_norm((['-e'] if case['eol'] else []) + (['-f'] if case['fix'] else []) + [p3])
                 evals += 1
